@@ -17,6 +17,9 @@ def step (st : St) (toks : List String) : Option (St × String) :=
   | "immixm" :: args =>
     let (m, o) := Monitor.step st.mon args
     some ({ st with mon := m }, o)
+  | "pages" :: args =>
+    let (p, o) := Pages.unitStep st.pages args
+    some ({ st with pages := p }, o)
   | "pagem" :: args =>
     let (p, o) := Pages.step st.pages args
     some ({ st with pages := p }, o)
